@@ -1305,8 +1305,40 @@ impl ServerSim {
     }
 
     /// invariants evaluated after every applied step
+    fn abstract_state(&self) -> u64 {
+        let mut parts: Vec<u64> = Vec::new();
+        for (id, cl) in self.clients.iter() {
+            let unanswered = self.outstanding.iter().filter(|o| o.1 == *id).count().min(2) as u64;
+            let (queued, written) = world::with(|w| (w.c2s_queued(cl.conn), w.conns[cl.conn].srv_written as usize));
+            let owed = (cl.expected_out.len() > written) as u64;
+            let peer: u64 = if cl.closed {
+                3
+            } else if cl.shut_rd && cl.shut_wr {
+                2
+            } else if cl.shut_rd || cl.shut_wr {
+                1
+            } else {
+                0
+            };
+            let acc: u64 = match cl.accept {
+                Accept::NotYet => 0,
+                Accept::Served => 1,
+                Accept::Refused => 2,
+            };
+            parts.push(acc | peer << 2 | unanswered << 4 | owed << 6 | ((queued > 0) as u64) << 7);
+        }
+        parts.sort_unstable();
+        let mut h = Sig::new();
+        for p in parts {
+            h.u(p);
+        }
+        let backlog = world::with(|w| w.listeners.iter().any(|l| l.open && !l.backlog.is_empty()));
+        h.u(self.readable() as u64 | (backlog as u64) << 1 | (self.killed as u64) << 2);
+        h.get()
+    }
+
     fn after_step(&mut self, st: &mut Stats) -> Result<(), Violation> {
-        let _ = st;
+        st.state(self.abstract_state());
         if self.flags.well_behaved && !self.killed {
             if !self.all_clean() {
                 self.out_of_scope = true;
